@@ -29,7 +29,8 @@ type CEnv struct {
 	guard *smt.Term
 	fc    *FuncContract
 	depth int
-	hypo  bool // the expression is being assumed (not proved)
+	hypo  bool            // the expression is being assumed (not proved)
+	at    *ssa.BasicBlock // program point (block) the expression is evaluated at, if known
 }
 
 func (ce *CEnv) withState(st *State) *CEnv {
@@ -330,24 +331,74 @@ func (x *Exec) loopVar(ce *CEnv, name string) *Val {
 			}
 		}
 	}
-	// debug refs (prefer those inside the current loop)
-	var cand ssa.Value
+	// named SSA values: phis carrying the variable's name and debug-referenced
+	// values. Inside a loop prefer values of that loop; otherwise prefer the
+	// latest definition (highest block index) that is available.
+	type cand struct {
+		v      ssa.Value
+		blk    int
+		inLoop bool
+	}
+	var cands []cand
 	for _, b := range fn.Blocks {
 		for _, in := range b.Instrs {
-			if d, ok := in.(*ssa.DebugRef); ok && !d.IsAddr {
+			switch d := in.(type) {
+			case *ssa.Phi:
+				if d.Comment == name {
+					cands = append(cands, cand{d, b.Index, ce.loop != nil && ce.loop.blocks[b]})
+				}
+			case *ssa.DebugRef:
+				if d.IsAddr {
+					continue
+				}
 				if id, ok := d.Expr.(interface{ String() string }); ok && id.String() == name {
-					if ce.loop == nil || ce.loop.blocks[b] || cand == nil {
-						if cand == nil || (ce.loop != nil && ce.loop.blocks[b]) {
-							cand = d.X
-						}
-					}
+					cands = append(cands, cand{d.X, b.Index, ce.loop != nil && ce.loop.blocks[b]})
 				}
 			}
 		}
 	}
-	if cand != nil && ce.env != nil {
-		if v := x.evalPure(ce, cand, 0); v != nil {
-			return v
+	if ce.env != nil && len(cands) > 0 {
+		if ce.loop != nil {
+			// first candidate inside the loop (evaluated from the loop-head values)
+			for _, c := range cands {
+				if c.inLoop {
+					if v := x.evalPure(ce, c.v, 0); v != nil {
+						return v
+					}
+				}
+			}
+			for _, c := range cands {
+				if v := x.evalPure(ce, c.v, 0); v != nil {
+					return v
+				}
+			}
+		} else {
+			// the definition that reaches the evaluation point: among the values
+			// whose defining block dominates it, the most deeply nested one
+			var bestV *Val
+			var bestB *ssa.BasicBlock
+			for _, c := range cands {
+				in, ok := c.v.(ssa.Instruction)
+				var db *ssa.BasicBlock
+				if ok {
+					db = in.Block()
+				} else {
+					db = fn.Blocks[0]
+				}
+				if ce.at != nil && db != ce.at && !db.Dominates(ce.at) {
+					continue
+				}
+				v := ce.env.lookup(c.v)
+				if v == nil {
+					continue
+				}
+				if bestB == nil || bestB == db || bestB.Dominates(db) {
+					bestV, bestB = v, db
+				}
+			}
+			if bestV != nil {
+				return bestV
+			}
 		}
 	}
 	// parameters
